@@ -8,7 +8,6 @@ from harness import core, gristenv as G, histgen, schedtrace as ST
 ID = 'C06'
 TITLE = 'Formula results do not depend on evaluation order'
 PROPS = ['Props/C06']
-DISABLED = True
 RULE = ('tie: random documents with 1-5 formula columns from the grammar n | $X | $R.X | a+b | (a if c>0 else b) | 1/0 | '
         'try/except (cycles allowed, 1-3 rows), follow-up bundles (data/reference edits, formula changes, new rows), each in '
         'a fresh engine whose work items are permuted by a random priority (lookup nodes first); every recorded update '
@@ -53,7 +52,7 @@ def traced_cases(ctx, n_docs, p_try, rng=None, n_edits=3):
     d, r = ST.gen_rows(rng, n)
     pseed = rng.randrange(1 << 30)
     prio = ST.priority_from(random.Random(pseed)) if rng.random() < 0.85 else None
-    info = {'prog': {c: list_of(a) for c, a in prog.items()}, 'd': d, 'r': r, 'prio': pseed if prio else None, 'edits': []}
+    info = {'stream': 'tie', 'prog': {c: list_of(a) for c, a in prog.items()}, 'd': d, 'r': r, 'prio': pseed if prio else None, 'edits': []}
     try:
       e, loops = ST.limited(lambda: ST.new_traced_doc(prog, d, r, prio))
     except core.TieBroken:
@@ -121,7 +120,7 @@ def run_tie(ctx, name, cases, shard=60):
 
 
 def correspond(ctx):
-  cases = traced_cases(ctx, ctx.n(40, 500), p_try=0.15)
+  cases = traced_cases(ctx, ctx.n(30, 500), p_try=0.15)
   for term, info, st, strict in cases:
     nontrivial = bool(st.get('need') or st.get('cycle') or st.get('opp'))
     ctx.count(term, nontrivial=nontrivial, sample=info if nontrivial else None,
@@ -268,7 +267,7 @@ def too_many_hangs(ctx):
 def search(ctx):
   k = ctx.n(2, 3)
   # (a) shared random histories, acyclic programs, full vocabulary
-  for _ in range(ctx.n(14, 150)):
+  for _ in range(ctx.n(10, 150)):
     seed = ctx.rng.randrange(1 << 30)
     nb = ctx.rng.choice([4, 6, 8])
     pseeds = [ctx.rng.randrange(1 << 30) for _ in range(k)]
@@ -288,7 +287,7 @@ def search(ctx):
       return
   ctx.log('search: histories done')
   # (b) cyclic grammar programs without handlers; (c) with handlers
-  for stream, p_try, n in (('strict', 0.0, ctx.n(60, 800)), ('handlers', 0.5, ctx.n(25, 150))):
+  for stream, p_try, n in (('strict', 0.0, ctx.n(50, 800)), ('handlers', 0.5, ctx.n(15, 150))):
     for _ in range(n):
       versions, d, r, edits = gen_prog_case(ctx.rng, p_try)
       pseeds = [ctx.rng.randrange(1 << 30) for _ in range(k)]
@@ -305,7 +304,23 @@ def search(ctx):
         return
 
 
+def replay_tie(w):
+  prog = collections.OrderedDict((c, tuple_of(a)) for c, a in w['prog'].items())
+  prio = ST.priority_from(random.Random(w['prio'])) if w.get('prio') is not None else None
+  try:
+    e, _loops = ST.limited(lambda: ST.new_traced_doc(prog, w['d'], w['r'], prio))
+    for b in w.get('edits', []):
+      ST.limited(lambda: G.apply(e, b))
+  except ST.Timeout:
+    return 'recalculation did not terminate within the time limit'
+  except Exception as x:
+    return 'a grammar bundle raised %r' % (x,)
+  return None
+
+
 def replay(ctx, w):
+  if w.get('stream') == 'tie':
+    return replay_tie(w)
   if w.get('stream') == 'hist':
     script = hist_script(w['seed'], w['nb'])
   else:
